@@ -63,7 +63,7 @@ func (propC04) Cases(tier string) int {
 }
 
 func (propC04) Run(ctx *Ctx, index int) {
-	prog := genC04(ctx.Prog)
+	prog := genC04(ctx.Prog, ctx.Tier == "thorough" && index%4 == 3)
 	qr := runQueueProgram(ctx, prog)
 	ctx.Res.Desc = prog
 	ctx.Res.ProgKey = jsonKey(prog)
